@@ -197,6 +197,10 @@ func main() {
 		fmt.Fprintln(os.Stderr, "usage: vcheck <ID> quick|thorough | vcheck <ID> --replay <file> | vcheck build <kind>...")
 		os.Exit(2)
 	}
+	if w := os.Getenv("VERIF_WORK"); w != "" { // development: keep binaries and generated sources
+		os.MkdirAll(w, 0o755)
+		os.Exit(run(w))
+	}
 	work, err := os.MkdirTemp("", "vcheck-")
 	if err != nil {
 		infra("%v", err)
